@@ -389,6 +389,20 @@ func c10SelectOpts(i int, raw []byte) Result {
 			}
 			r.Evals++
 		}
+		// the chunks of the selection: every body line a chunk holds lies on a page inside the chunk's own page range
+		if cc, _, cerr := apply(tabula.Open(path), c.Calls).Chunks(); cerr == nil {
+			for _, ch := range cc.Chunks {
+				for _, m := range optTokRe.FindAllStringSubmatch(ch.Text, -1) {
+					if m[2] == "" {
+						continue
+					}
+					if src := int(m[2][0] - '0'); src < ch.Metadata.PageStart || src > ch.Metadata.PageEnd || !sel[src] {
+						return mk("pagenumber-chunk", fmt.Sprintf("a chunk of the selection %v reports pages %d-%d and holds %q, which stands on source page %d", c.Expected.Pages, ch.Metadata.PageStart, ch.Metadata.PageEnd, m[0], src), src)
+					}
+				}
+			}
+			r.Evals++
+		}
 	}
 	wt, wp := optTokens(whole)
 	var want []string
